@@ -201,6 +201,8 @@ def check_props(prop_id, timeout=900):
     """Re-check Props/<ID>.v with coqc and parse the Print Assumptions output.
     Returns dict(theorems=[{name, closed, axioms}], ok, output, cmd)."""
     path = os.path.join("Props", prop_id + ".v")
+    if not os.path.exists(os.path.join(COQ, path)):
+        return {"theorems": [], "ok": False, "declared": [], "output": "missing " + path, "cmd": "", "wall_s": 0}
     cmd = "cd %s && coqc -Q . Authlib %s" % (COQ, path)
     t0 = time.time()
     try:
